@@ -15,6 +15,13 @@ pub open spec fn C() -> int { 49478023249919 }
 pub open spec fn v2(a0: u64, a1: u64) -> int { a0 as int + a1 as int * B64() }
 pub open spec fn v3(a0: u64, a1: u64, a2: u64) -> int { a0 as int + a1 as int * B64() + a2 as int * B128() }
 
+// (not used by the code as it stands; specified so that a helper rewritten with these std functions can still be
+// checked against its contract instead of being rejected as unsupported)
+pub assume_specification[ u64::overflowing_add ](a: u64, b: u64) -> (r: (u64, bool))
+    ensures r.0 == a.wrapping_add(b), r.1 == (a as int + b as int >= 0x1_0000_0000_0000_0000);
+pub assume_specification[ u64::overflowing_sub ](a: u64, b: u64) -> (r: (u64, bool))
+    ensures r.0 == a.wrapping_sub(b), r.1 == ((a as int) < (b as int));
+
 proof fn lemma_wsub128(x: u128, y: u128)
     ensures x.wrapping_sub(y) == vstd::prelude::sub(x, y)
 {
@@ -478,7 +485,8 @@ UNIT = {
     "epilogue": EPILOGUE,
     "theorems": {"thm_constants": "C10.f128.constants.M"},
     "assumptions": [
-        "Verus: `as u64` truncation, shifts and u128::wrapping_{add,sub,mul} as specified by vstd",
+        "Verus: `as u64` truncation, shifts and u128::wrapping_{add,sub,mul} as specified by vstd; "
+        "u64::overflowing_add/sub specified by assume_specification (cross-checked by Kani harness k_std_overflowing_specs)",
         "axiom_zero: FieldElement::ZERO (an external_body trait const for Verus) has inner value 0; checked on the real "
         "code by Kani obligation C10.f128.constants.zero_one",
     ],
